@@ -1,12 +1,13 @@
 #!/bin/bash
-# intake every finished benign set under /tmp/wtb that is not filed yet (3 slots)   (development helper)
+# usage: intake_benign_all.sh <wave dir> <tag>   intake every finished benign set that is not filed yet (3 slots)   (development helper)
+W=${1:-/tmp/wtb}; T=${2:-}
 todo=()
-for d in /tmp/wtb/C*/; do id=$(basename $d); [ -f $d/seed_out/meta_D.json ] || [ -f $d/seed_out/D.diff ] || continue; [ -d /verif/benign/$id-A ] || [ -d /verif/benign/$id-B ] || [ -d /verif/benign/$id-D ] && continue; todo+=($id); done
+for d in $W/C*/; do id=$(basename $d); [ -f $d/seed_out/meta_D.json ] || continue; [ -d /verif/benign/$id-${T}A ] || [ -d /verif/benign/$id-${T}B ] || [ -d /verif/benign/$id-${T}C ] || [ -d /verif/benign/$id-${T}D ] && continue; todo+=($id); done
 echo "todo: ${todo[*]}"
 i=0
 for id in "${todo[@]}"; do
-  slot=$((i % 3)); i=$((i+1))
-  ( INTAKE_WT=/tmp/intake_wt_b$slot$i /venv/bin/python /verif/tools/intake_benign.py /tmp/wtb/$id/seed_out $id ) > /tmp/ib_$id.log 2>&1 &
+  i=$((i+1))
+  ( BENIGN_TAG=$T INTAKE_WT=/tmp/intake_wt_b$i /venv/bin/python /verif/tools/intake_benign.py $W/$id/seed_out $id ) > /tmp/ib_$id.log 2>&1 &
   if [ $((i % 3)) -eq 0 ]; then wait; fi
 done
 wait
